@@ -161,6 +161,18 @@ Definition key_le (a b : skey) : res bool :=
   bind (key_lt a b) (fun r => if r then Ok true else key_eq a b).
 Definition key_ge (a b : skey) : res bool := bind (key_lt a b) (fun r => Ok (negb r)).
 
+(* _CoordinateKey.__str__ / _BarcodesAndCoordinateKey.__str__: "\t".join of
+   str(component); the barcode key joins the barcodes themselves, which is a
+   TypeError unless both are str *)
+Definition ckey_str (k : ckey) : str :=
+  join [TAB] [py_str (k_chrom k); py_str (k_start k); py_str (k_end k)].
+Definition key_str (k : skey) : res str :=
+  match k with
+  | KCoord c => Ok (ckey_str c)
+  | KBar (PStr t) (PStr n) c => Ok (join [TAB] [t; n; ckey_str c])
+  | KBar _ _ _ => Raise TypeError
+  end.
+
 (* ---------- sort orders ---------- *)
 Inductive so_class := CUnknown | CUnsorted | CBarcodesAndCoordinate | CCoordinate.
 
